@@ -15,6 +15,13 @@ from .util import subvals
 isinstance_ = isinstance
 isinstance = notrace_primitive(isinstance)
 
+
+def _container_value(x):
+    # the container behind a traced container (whatever the number of tracing levels); anything else as it is
+    while isinstance_(x, (SequenceBox, DictBox)):
+        x = x._value
+    return x
+
 type_ = type
 type = notrace_primitive(type)
 
@@ -53,6 +60,16 @@ class SequenceBox(Box):
     def index(self, elt):
         return self._value.index(elt)
 
+    # equality is the wrapped tuple's / list's (without these, == and != compare the identity of the tracer objects)
+    def __eq__(self, other):
+        return _container_value(self) == _container_value(other)
+
+    def __ne__(self, other):
+        return _container_value(self) != _container_value(other)
+
+    def __hash__(self):
+        return id(self)
+
 
 SequenceBox.register(tuple_)
 SequenceBox.register(list_)
@@ -88,6 +105,15 @@ class DictBox(Box):
 
     def itervalues(self):
         return (self[k] for k in self)
+
+    def __eq__(self, other):
+        return _container_value(self) == _container_value(other)
+
+    def __ne__(self, other):
+        return _container_value(self) != _container_value(other)
+
+    def __hash__(self):
+        return id(self)
 
     def get(self, k, d=None):
         return self[k] if k in self else d
